@@ -81,6 +81,8 @@ pub struct Sim {
     pub last_sent: Vec<Value>,
     /// what game logic observed in the last frame (event deliveries)
     pub last_delivered: Vec<Value>,
+    /// server emissions queued by the driver: (type, id, mode, to, entity slot)
+    pub pending_semits: Vec<(String, u32, String, Option<String>, Option<String>)>,
     pub last_panic: Option<String>,
     /// decoder problems: the run is a tool error, not a verdict
     pub tool_errors: Vec<String>,
@@ -206,6 +208,7 @@ impl Sim {
             server_panicked: false,
             last_sent: Vec::new(),
             last_delivered: Vec::new(),
+            pending_semits: Vec::new(),
             last_panic: None,
             tool_errors: Vec::new(),
         }
@@ -578,6 +581,7 @@ impl Sim {
         self.last_sent.clear();
         self.last_panic = None;
         self.last_delivered.clear();
+        self.flush_server_emits();
         set_dt(&mut self.server, dt_ms);
         let running = self.server.world().resource::<RepliconServer>().is_running();
         if tick {
@@ -670,31 +674,42 @@ impl Sim {
 
     // ------------------------------------------------------------------ events
 
-    fn send_mode(&self, mode: &str, to: Option<&str>) -> Option<SendMode> {
-        let ent = |c: &str| self.clients[self.ci(c)].entity;
-        Some(match (mode, to) {
-            ("all", _) => SendMode::Broadcast,
+    /// The client entity game logic would hold for `to` right now (a dead id if it is not connected).
+    fn send_mode(&self, mode: &str, to: Option<&str>) -> SendMode {
+        let ent = |c: &str| self.clients[self.ci(c)].entity.unwrap_or(Entity::from_raw(u32::MAX - 9));
+        match (mode, to) {
             ("except", Some("server")) => SendMode::BroadcastExcept(SERVER),
-            ("except", Some(c)) => SendMode::BroadcastExcept(ent(c)?),
+            ("except", Some(c)) => SendMode::BroadcastExcept(ent(c)),
             ("direct", Some("server")) => SendMode::Direct(SERVER),
-            ("direct", Some(c)) => SendMode::Direct(ent(c)?),
-            _ => return None,
-        })
+            ("direct", Some(c)) => SendMode::Direct(ent(c)),
+            _ => SendMode::Broadcast,
+        }
     }
 
-    /// Queues a server event; the server app emits it inside the `Update` of its next frame.
+    /// Queues a server event; the server app emits it inside the `Update` of its next frame, addressing
+    /// the client entities that exist then.
     pub fn emit_s(&mut self, t: &str, id: u32, mode: &str, to: Option<&str>, e: Option<&str>) -> bool {
-        let Some(mode) = self.send_mode(mode, to) else { return false };
-        let e = match e {
-            Some(n) => match self.server_entity(n) {
-                Some(x) => Some(x),
-                None => return false,
-            },
-            None => None,
-        };
-        let Some(mut p) = self.server.world_mut().get_resource_mut::<crate::events::PendingEmits>() else { return false };
-        p.0.push(crate::events::Emit::S { t: t.to_string(), id, mode, e });
+        if let Some(n) = e {
+            if self.server_entity(n).is_none() {
+                return false;
+            }
+        }
+        if self.server.world().get_resource::<crate::events::PendingEmits>().is_none() {
+            return false;
+        }
+        self.pending_semits.push((t.to_string(), id, mode.to_string(), to.map(str::to_string), e.map(str::to_string)));
         true
+    }
+
+    fn flush_server_emits(&mut self) {
+        let pend: Vec<_> = self.pending_semits.drain(..).collect();
+        for (t, id, mode, to, e) in pend {
+            let mode = self.send_mode(&mode, to.as_deref());
+            let e = e.and_then(|n| self.server_entity(&n));
+            if let Some(mut p) = self.server.world_mut().get_resource_mut::<crate::events::PendingEmits>() {
+                p.0.push(crate::events::Emit::S { t, id, mode, e });
+            }
+        }
     }
 
     /// Queues a client event. An entity reference is the client's own entity for the slot; if the
